@@ -37,6 +37,7 @@ pub struct CaseStats {
     pub chunk_inside_utf8: u64,
     pub chunk_inside_line: u64,
     pub p_checks: u64,
+    pub e_checks: u64,
     pub delta_runs: u64,
     pub panics: u64,
     pub shape: String,
@@ -127,6 +128,53 @@ pub fn check_case(case: &Case) -> (Vec<Violation>, CaseStats) {
     if let Some(v) = lag::check_lag(&case.lines, case.opts.line_buffer_size, &t, &qa, &mut stats.lag, "one line per read") {
         out.push(v);
         return (out, stats);
+    }
+
+    // oracle E (nothing at all is held back after an unchanged line): at quiescence points of run A
+    // whose last delivered line is an unchanged hunk line, what has been written equals — not just
+    // prefixes — what delta writes for exactly those lines followed by EOF.  This covers output
+    // that carries no token: file and hunk headers, commit and diffstat lines, wrapped continuation
+    // lines, decorations.
+    {
+        let qa_all = &a.shared.quiescence;
+        let mut cands: Vec<usize> = Vec::new();
+        let mut j: isize = -1;
+        for (qi, q) in qa_all.iter().enumerate() {
+            while ((j + 1) as usize) < case.lines.len() && t.line_end[(j + 1) as usize] <= q.delivered {
+                j += 1;
+            }
+            if j >= 0 && t.line_end[j as usize] == q.delivered && case.lines[j as usize].kind == LineKind::Context && q.delivered < data.len() {
+                cands.push(qi);
+            }
+        }
+        if !cands.is_empty() {
+            for (n, pp) in case.p_points.iter().enumerate() {
+                if n >= 2 {
+                    break;
+                }
+                let qi = cands[pp % cands.len()];
+                let q = &qa_all[qi];
+                let prefix = Rc::new(data[..q.delivered].to_vec());
+                let f = run_delta(RunParams { config: &config, data: prefix, rschedule: vec![], rdelays_ms: vec![], wplan: vec![], fail_at: None, fail_kind: std::io::ErrorKind::BrokenPipe, keep_output: true, record_quiescence: false });
+                stats.delta_runs += 1;
+                stats.e_checks += 1;
+                if !matches!(f.result, Ok(Ok(()))) {
+                    continue;
+                }
+                let w = &ref_out[..q.written.min(ref_out.len())];
+                if f.shared.out != w {
+                    let fo = String::from_utf8_lossy(&simcore::text::strip_ansi(&f.shared.out)).to_string();
+                    let wo = String::from_utf8_lossy(&simcore::text::strip_ansi(w)).to_string();
+                    let missing: String = if fo.len() >= wo.len() && fo.starts_with(&wo) { fo[wo.len()..].chars().take(160).collect() } else { "(not a prefix)".into() };
+                    out.push(Violation::new(
+                        "E-nothing-held-after-unchanged-line",
+                        "E:output-held-back-after-unchanged-line",
+                        format!("after {} input bytes ending in the unchanged line {:?}, {} bytes are written but delta writes {} bytes for exactly this input; held back: {:?}", q.delivered, case.lines[(0..case.lines.len()).find(|i| t.line_end[*i] == q.delivered).unwrap_or(0)].text, w.len(), f.shared.out.len(), missing),
+                    ));
+                    return (out, stats);
+                }
+            }
+        }
     }
 
     // schedule B: the sampled schedule with non-fatal faults on both sides
@@ -285,6 +333,7 @@ pub fn merge_stats(into: &mut BTreeMap<String, u64>, s: &CaseStats) {
     add("chunk_boundary_inside_utf8_sequence", s.chunk_inside_utf8);
     add("chunk_boundary_inside_line", s.chunk_inside_line);
     add("prefix_oracle_checks", s.p_checks);
+    add("exactness_oracle_checks", s.e_checks);
     add("delta_runs", s.delta_runs);
     add("incidental_panics_or_errors", s.panics);
     let e = into.entry("max_held_minus".into()).or_default();
